@@ -9,6 +9,7 @@ import Driver.Runner
 import Driver.Zip
 import Driver.Fs
 import Driver.IO
+import Driver.Rm
 
 def dispatch (line : String) : String :=
   match (line.trimAscii.toString.splitOn " ").filter (· ≠ "") with
@@ -28,6 +29,7 @@ def dispatch (line : String) : String :=
   | "unzip" :: rest => Driver.Zip.handleUnzip rest
   | "fsprog" :: rest => Driver.Fs.handle rest
   | "io" :: rest => Driver.IO.handle rest
+  | "rm" :: rest => Driver.Rm.handle rest
   | _ => "bad-op"
 
 partial def loop (hin hout : IO.FS.Stream) : IO Unit := do
